@@ -2,7 +2,7 @@
    Only the property theorems, each closed by [exact] of a lemma of Proofs*.v and followed by
    Print Assumptions.  [run h gc_init] is the collector state after an arbitrary history [h] of
    mutator commands (Model.op) from GC:init. *)
-From C10 Require Import Model Proofs Safety Defects Frame Finalize Exit Garbage AllocSafe Abort OpFrame.
+From C10 Require Import Model Proofs Safety Defects Frame Finalize Exit Garbage AllocSafe Abort OpFrame ReallocSafe.
 Local Open Scope Z_scope.
 
 (* the tracked byte count always equals the sum of the registered sizes (as usize) *)
@@ -169,3 +169,17 @@ Theorem C10_explicit_ops_frame : forall o p g a, op_target o = Some p -> a <> p 
   (forall e, In e (log (apply_op o g)) -> ev_addr e = a -> In e (log g)).
 Proof. exact frame_no_cycle. Qed.
 Print Assumptions C10_explicit_ops_frame.
+
+(* collection triggered from inside a realloc that grows a block in place (GC:reregister ->
+   GC:step): every other reachable block is kept untouched, unfreed, unfinalized, and the grown
+   block itself survives with its old contents extended by zero words *)
+Theorem C10_realloc_grow_safe : forall h stk p n itp a it,
+  err (run h gc_init) = None ->
+  lookup p (items (run h gc_init)) = Some itp -> p <> 0 -> 0 < n -> isize itp < n < two64 ->
+  reach (items (run h gc_init)) (mark_seeds stk (run h gc_init)) a ->
+  lookup a (items (run h gc_init)) = Some it -> a <> p ->
+  lookup a (items (apply_op (ORealloc p p n stk) (run h gc_init))) = Some it /\
+  (forall e, In e (log (apply_op (ORealloc p p n stk) (run h gc_init))) -> ev_addr e = a -> In e (log (run h gc_init))) /\
+  lookup p (items (apply_op (ORealloc p p n stk) (run h gc_init))) = Some (resize_item n itp).
+Proof. exact realloc_grow_safe. Qed.
+Print Assumptions C10_realloc_grow_safe.
